@@ -68,20 +68,15 @@ Definition listings_of (t : table) : list (listing * domain) := [
   (t_modsummary_sub t, DContents); (t_rootclasses t, DAllobjects); (t_subclasses_from t, DSubclasses);
   (t_nameindex t, DAllobjects); (t_undocced t, DAllobjects); (t_alldocs t, DAllobjects);
   (t_corpus t, DAllobjects); (t_inventory t, DContents); (t_writer t, DContents);
-  (t_assemble t, DGiven); (t_overriding t, DSubclasses)].
-
-(* the two producers that iterate system.rootobjects: checked for their domain only (see C12 known finding) *)
-Definition root_listings_of (t : table) : list (listing * domain) := [
-  (t_modindex_roots t, DRootobjects); (t_index_roots t, DRootobjects)].
+  (t_assemble t, DGiven); (t_overriding t, DSubclasses);
+  (t_modindex_roots t, DRootobjects); (t_index_roots t, DRootobjects)].   (* filtered since commit 989b1ee *)
 
 Definition producer_ok (p : listing * domain) : bool :=
   l_visible (fst p) && domain_eqb (l_domain (fst p)) (snd p).
 
-Definition domain_ok (p : listing * domain) : bool := domain_eqb (l_domain (fst p)) (snd p).
-
 (* every listing filters on visibility and iterates what the model assumes *)
 Definition table_ok (t : table) : bool :=
-  forallb producer_ok (listings_of t) && forallb domain_ok (root_listings_of t).
+  forallb producer_ok (listings_of t).
 
 Definition markers_ok (t : table) : bool :=
   t_css_private t && t_sidebar_private t && t_modsummary_private t && t_search_privacy t
